@@ -465,6 +465,9 @@ class Interp:
     def index_of(self, st, arr, idx):
         n = st.vlen(arr)
         i = to_int(idx)
+        h = self.calls.get('index-check')
+        if h is not None:
+            h(self, st, arr, i, n)          # bounds obligation  -n <= i < n  (client decides how to discharge it)
         return st.lo(arr) + z3.If(i < 0, n + i, i)
 
     def ev_Subscript(self, st, e):
